@@ -339,6 +339,82 @@ def big_worker(job):
     return st
 
 
+def unreadable_worker(job):
+    """Walks as an unprivileged user over starting points and directories that may be examined but not opened (mode 000): they are
+    visited themselves, reading them fails (diagnostic, non-zero exit) - and every entry collected for a '{} +' action, the unreadable
+    directories included, still reaches the command before find exits."""
+    k, nruns, seed = job
+    st = Stats()
+    rng = common.rng_for(seed, "C08u", k)
+    base = common.mkscratch("C08u%d" % k)
+    os.chmod(base, 0o755)
+    try:
+        probe = common.run_cmd([common.REC, "probe"], cwd=base, env=common.clean_env(), timeout=30, preexec_fn=common.drop_to(65534))
+        if probe[0] != 0:
+            st.inc("unprivileged_runs_not_possible")
+            return st
+        for t in range(nruns):
+            sb = os.path.join(base, "t%d" % t)
+            os.makedirs(sb)
+            os.chmod(sb, 0o777)
+            nodes = [treegen.Node("r", "d"), treegen.Node("r/a", "f"), treegen.Node("r/sub", "d"), treegen.Node("r/sub/b", "f"),
+                     treegen.Node("r/sub/locked", "d"), treegen.Node("r/sub/locked/inner", "f"), treegen.Node("r/zz", "f"),
+                     treegen.Node("locked", "d"), treegen.Node("locked/inner", "f"), treegen.Node("r2", "d"), treegen.Node("r2/c", "f")]
+            treegen.build(sb, nodes)
+            os.chmod(os.path.join(sb, "r/sub/locked"), 0)
+            os.chmod(os.path.join(sb, "locked"), 0)
+            roots = rng.choice([["locked"], ["r", "locked"], ["locked", "r2"], ["r", "locked", "r2"], ["r"], ["r2", "r", "locked"], ["./locked"]])
+            kind = rng.choice(["-exec", "-execdir"])
+            tag = "U%d_%d" % (k, t)
+            pre = rng.choice([[], ["-sorted"], ["-depth"]])
+            toks = pre + [kind, common.REC, tag, "{}", "+"]
+            log = os.path.join(sb, "rec.log")
+            for f_ in (log, log + ".n"):
+                open(f_, "w").close()
+                os.chmod(f_, 0o666)
+            rc, out, err, to = common.run_cmd([common.FIND] + roots + toks, cwd=sb, env=common.clean_env({"VERIF_REC_LOG": log}), timeout=60,
+                                              preexec_fn=common.drop_to(65534))
+            st.inc("evaluations")
+            st.inc("runs_over_unreadable_directories_as_an_unprivileged_user")
+            st.inc("kind:" + kind)
+            st.add("distinct", ("unreadable", tuple(roots), tuple(toks[:-4])))
+            rp = {"tree": [n.to_json() for n in nodes], "args": ["find"] + roots + toks, "uid": 65534, "mode_000": ["locked", "r/sub/locked"]}
+            if to or rc in (101, 134, -6, -11):
+                st.violate("panic-or-hang", None, {"args": toks, "rc": rc, "stderr": err[-300:]}, rp)
+                common.force_rmtree(sb)
+                continue
+            want = []
+            for r_ in roots:
+                top = r_[2:] if r_.startswith("./") else r_
+                for n in nodes:
+                    if (n.path == top or n.path.startswith(top + "/")) and not n.path.endswith("/inner"):
+                        want.append(r_ + n.path[len(top):])
+            got = []
+            for cwd_, argv in xref.read_reclog(log):
+                rel = os.path.relpath(cwd_.decode(), sb)
+                for a in argv[1:]:
+                    a = a.decode("utf-8", "surrogateescape")
+                    got.append(os.path.normpath(os.path.join(rel, a)) if kind == "-execdir" else a)
+            if kind == "-execdir":
+                want = [os.path.normpath(w_) for w_ in want]
+            problems = []
+            if sorted(got) != sorted(want):
+                problems.append("delivered %r, expected %r (missing %r)" % (sorted(got)[:12], sorted(want)[:12], sorted(set(want) - set(got))[:6]))
+            locked_reached = any(w_.endswith("locked") for w_ in want)
+            if locked_reached and (rc == 0 or not err.strip()):
+                problems.append("exit status %r, stderr %r although a directory could not be read" % (rc, err[-200:]))
+            if not locked_reached and rc != 0:
+                problems.append("exit status %r, stderr %r" % (rc, err[-200:]))
+            if problems:
+                st.violate("exec-plus", None, {"args": ["find"] + roots + toks, "uid": 65534, "problems": problems, "exit": rc, "stderr": err[-300:]}, rp)
+            for d_ in ("locked", "r/sub/locked"):
+                os.chmod(os.path.join(sb, d_), 0o755)
+            common.force_rmtree(sb)
+    finally:
+        common.force_rmtree(base)
+    return st
+
+
 def run(ctx):
     ctx.rule = ("(small) random/hostile trees from empty to 40 entries x 8 expression shapes (after tests, in -o, negated, -quit, two "
                 "+ actions, -depth, -maxdepth) x -exec/-execdir x 1-2 starting points x scripted failing invocations / missing command; "
@@ -348,6 +424,9 @@ def run(ctx):
     nw = common.NCPU
     n = ctx.scale(480, 96000)
     ctx.pmap(small_worker, [(k, n // nw, ctx.seed) for k in range(nw)])
+    ctx.pmap(unreadable_worker, [(k, ctx.scale(6, 400), ctx.seed) for k in range(nw)])
+    if ctx.stats.c.get("unprivileged_runs_not_possible"):
+        ctx.stats.notes.append("uid 65534 cannot execute the recorder from here: the unreadable-directory workload was not run")
     big = [
         (0, 6000, 200, 512 * KIB, 1, "-exec", ctx.seed, False),
         (1, 3000, 240, 512 * KIB, 30, "-exec", ctx.seed, True),
